@@ -220,7 +220,7 @@ def run_history(case, rnd):
     V, nt = [], False
     for k in range(case["n_edits"]):
         risky = rnd.random() < 0.25
-        e = edits.risky_edit(rnd, h.spec, h.objs) if risky else h.propose(["num", "num", "link", "list_assign", "list_mut", "list_mut", "starts", "group"])
+        e = edits.risky_edit(rnd, h.spec, h.objs) if risky else h.propose(["num", "num", "link", "list_assign", "list_mut", "list_mut", "starts", "group", "step_time", "step_time", "simulate", "delete_pattern"])
         if e is None:
             continue
         if h.apply(e) is not None:
